@@ -34,42 +34,43 @@ inductive OrdArg where
   | none
   /-- an `int`; a `bool` is the int 0 / 1 -/
   | int (i : Int)
-  /-- a number that is not an `int` (float, Fraction), of value `q` -/
-  | real (q : Rat)
+  /-- a number that is not an `int`, of value `q`: a float (`isFloat`) or a Fraction -/
+  | real (q : Rat) (isFloat : Bool)
   deriving DecidableEq, Repr
 
 /-- the order / max_lag the body works with, for the spellings on which it works -/
 def OrdArg.toOption : OrdArg → Option Nat
   | .omitted | .none => Option.none
   | .int i => some i.toNat
-  | .real _ => Option.none
+  | .real _ _ => Option.none
 
 /-- `acorr(blk, max_lag)`: `xrange(max_lag + 1)` is empty for a negative int and raises TypeError
     for a non-int -/
 def acorrCall (blk : List α) : OrdArg → Except String (List α)
   | .omitted | .none => .ok (acorr blk Option.none)
   | .int i => if i < 0 then .ok [] else .ok (acorr blk (some i.toNat))
-  | .real _ => .error "TypeError"
+  | .real _ _ => .error "TypeError"
 
 /-- `lag_matrix(blk, max_lag)`: the test `max_lag >= len(blk)` comes first and works on any number;
     a negative int passes it and gives the empty table -/
 def lagMatrixCall (blk : List α) : OrdArg → Except String (List (List α))
   | .omitted | .none => lagMatrix blk Option.none
   | .int i => if i < 0 then .ok [] else lagMatrix blk (some i.toNat)
-  | .real q => if (blk.length : Rat) ≤ q then .error "ValueError" else .error "TypeError"
+  | .real q _ => if (blk.length : Rat) ≤ q then .error "ValueError" else .error "TypeError"
 
 section filters
 variable [DecidableEq α]
 
 /-- `levinson_durbin(acdata, order)`: a negative int runs no pass (`A = 1`, `error = acdata[0]`,
-    IndexError on an empty list); a non-int raises TypeError in `Stream.take` (order ≥ len) or in
-    `xrange` -/
+    IndexError on an empty list); a non-int below `len(acdata)` raises TypeError in `xrange`; from
+    `len(acdata)` on, `Stream.take(order + 1)` comes first: it ROUNDS a float (then `xrange` raises
+    TypeError) and hands a Fraction to `itertools.islice` (ValueError) -/
 def levinsonCall (r : List α) : OrdArg → Except String (List α × α)
   | .omitted | .none => levinson r Option.none
   | .int i =>
     if i < 0 then (if r.length = 0 then .error "IndexError" else .ok ([1], inner r [1] [1]))
     else levinson r (some i.toNat)
-  | .real _ => .error "TypeError"
+  | .real q fl => if (r.length : Rat) ≤ q ∧ fl = false then .error "ValueError" else .error "TypeError"
 
 /-- `lpc.kautocor(blk, order)` = `levinson_durbin(acorr(blk, order), order)` -/
 def kautocorCall (blk : List α) (o : OrdArg) : Except String (List α × α) := do
@@ -128,7 +129,7 @@ def noNumpy : Strat → List α → OrdArg → Except String (List α × α) :=
 def below100 : OrdArg → Except String Bool
   | .omitted | .none => .error "TypeError"
   | .int i => .ok (decide (i < 100))
-  | .real q => .ok (decide (q < 100))
+  | .real q _ => .ok (decide (q < 100))
 
 /-- `lpc.autocor(blk, order)`, the default strategy -/
 def lpcAutocor (np : Strat → List α → OrdArg → Except String (List α × α)) (blk : List α) (o : OrdArg) :
